@@ -490,6 +490,8 @@ func init() {
 		run.Set("alphabet", map[string]any{"keys": keys, "values": vals, "ops": []string{"up", "del", "compact(threshold 1)", "leave", "sync(stale observer pulls a whole delta)"}})
 		run.Set("explanation", "unbounded BFS over the real clusterState (owner) and a real observer state; states are de-duplicated after replacing version numbers by their rank (the code only compares versions and takes max+1), which makes the reachable space finite; reference model = map + counter; every discovered state additionally synchronises a stale and a fresh observer and compares live keys")
 		fmt.Printf("  C17: states=%d transitions=%d depth=%d exhaustive=%v %s\n", res.States, res.Transitions, res.DepthCompleted, res.Exhaustive, res.CapHit)
+		run.Set("bulk_key_cases", c17Bulk(run))
+		schedPass(run)
 		return run.Finish()
 	})
 	replayers["E3-C17"] = func(path string) int {
